@@ -311,6 +311,7 @@ func (s *Session) clientOp(r *rpcState, a *actor, st Step) {
 				f["chctx"] = grpctunnel.VerifChannelID(grpctunnel.TunnelChannelFromContext(cs.Context()))
 				tmd, _ := grpctunnel.TunnelMetadataFromOutgoingContext(cs.Context())
 				f["tmd"] = wire.MD(tmd)
+				mutate(tmd)
 			}
 			if has(st.Opts, "chan") {
 				f["chopt"] = grpctunnel.VerifChannelID(r.chT)
